@@ -17,7 +17,11 @@ import (
 //   - the computed default of setBuildPath (its body is translated statement by statement: fallback, the
 //     (option, element) pairs that switch to strings.Split(os.Getenv(var), sep), the final setDefault),
 //   - `if !config.A.B { config.C.D = append(config.C.D, "x") }` (an element appended to one option when another is false) and
-//   - the literal defaults of DefaultConfiguration().
+//   - the literal defaults of DefaultConfiguration(),
+//   - what readConfigFileOnly does when fs.Open fails (translated: which errors are skipped, which abort the read),
+//   - the statements of readConfigFile (fresh plugin map, read-or-abort, merge) and
+//   - the passes of normaliseAndMergePluginConfig, in the order they are written (lower-casing of the keys, merge of the
+//     previous layers' values).
 // Every statement of the two order functions and of the read loop must match one of the shapes below.
 
 type cfgTrans struct {
@@ -65,7 +69,7 @@ func (t *cfgTrans) constString(e ast.Expr, depth int) string {
 
 var identRe = `[A-Za-z_][A-Za-z_0-9]*`
 
-func (t *cfgTrans) globalOrder() []string {
+func (t *cfgTrans) globalOrder() ([]string, string) {
 	fd := findFunc(t.file, "", "defaultGlobalConfigFiles")
 	stmts := fd.Body.List
 	if len(stmts) < 2 {
@@ -91,6 +95,26 @@ func (t *cfgTrans) globalOrder() []string {
 		q(v) + ` = append\(` + q(v) + `, filepath\.Join\((` + identRe + `), (` + identRe + `)\)\) \} \}$`)
 	reDir := regexp.MustCompile(`^if (` + identRe + `) := os\.Getenv\("([A-Z_]+)"\); (` + identRe + `) != "" && filepath\.IsAbs\((` + identRe + `)\) \{ ` +
 		q(v) + ` = append\(` + q(v) + `, filepath\.Join\((` + identRe + `), (` + identRe + `)\)\) \}$`)
+	// the end of the function: `return v` (every name as often as it was appended), or the keep-last dedupe
+	//   d := v[:0:0]; for i, f := range v { if !slices.Contains(v[i+1:], f) { d = append(d, f) } }; return d
+	dedupe := "DedupeNone"
+	if n := len(stmts); n >= 4 && t.text(stmts[n-1]) != "return "+v {
+		reInit := regexp.MustCompile(`^(` + identRe + `) := ` + q(v) + `\[:0:0\]$`)
+		m := reInit.FindStringSubmatch(t.text(stmts[n-3]))
+		if m == nil {
+			failShape("defaultGlobalConfigFiles: does not end in `return %s` or the keep-last dedupe: %s", v, t.text(stmts[n-3]))
+		}
+		d := m[1]
+		wantLoop := "for i, f := range " + v + " { if !slices.Contains(" + v + "[i+1:], f) { " + d + " = append(" + d + ", f) } }"
+		if t.text(stmts[n-2]) != wantLoop {
+			failShape("defaultGlobalConfigFiles: dedupe loop of unknown shape: %s", t.text(stmts[n-2]))
+		}
+		if t.text(stmts[n-1]) != "return "+d {
+			failShape("defaultGlobalConfigFiles: last statement is %q, not `return %s`", t.text(stmts[n-1]), d)
+		}
+		dedupe = "DedupeKeepLast"
+		stmts = append(append([]ast.Stmt{}, stmts[:n-3]...), &ast.ReturnStmt{Results: []ast.Expr{ast.NewIdent(v)}})
+	}
 	for i, st := range stmts[1:] {
 		txt := t.text(st)
 		if i == len(stmts)-2 {
@@ -115,7 +139,7 @@ func (t *cfgTrans) globalOrder() []string {
 			failShape("defaultGlobalConfigFiles: statement of unknown shape: %s", txt)
 		}
 	}
-	return out
+	return out, dedupe
 }
 
 func (t *cfgTrans) repoOrder() []string {
@@ -330,6 +354,152 @@ func (t *cfgTrans) setBuildPath(call *ast.CallExpr, defaultPath string) string {
 	return fmt.Sprintf("(%s, [%s], %s, %s, %s)", coqString(target), strings.Join(triggers, "; "), coqString(envVar), coqString(sep), defaultPath)
 }
 
+
+// openPolicy translates the error handling after `f, err := <fs>.Open(<filename>)` in readConfigFileOnly into
+// (action for an error that satisfies os.IsNotExist, action for every other error): "OpenSkip" = return nil (the file is
+// treated as absent), "OpenAbort" = return err.
+// Recognised statements inside `if err != nil { ... }`, anything else fails closed:
+//   if os.IsNotExist(err) { return nil | return err }
+//   log.<Level>(...)
+//   return err | return nil            (ends the block)
+func (t *cfgTrans) openPolicy() (notExist, other string) {
+	fd := findFunc(t.file, "", "readConfigFileOnly")
+	if len(fd.Type.Params.List) < 3 {
+		failShape("readConfigFileOnly: expected at least 3 parameters")
+	}
+	fsName := fd.Type.Params.List[0].Names[0].Name
+	fileName := fd.Type.Params.List[2].Names[0].Name
+	openIdx := -1
+	for i, st := range fd.Body.List {
+		if t.text(st) == "f, err := "+fsName+".Open("+fileName+")" {
+			openIdx = i
+		}
+	}
+	if openIdx < 0 || openIdx+1 >= len(fd.Body.List) {
+		failShape("readConfigFileOnly: `f, err := %s.Open(%s)` not found", fsName, fileName)
+	}
+	for _, st := range fd.Body.List[:openIdx] {
+		if !strings.HasPrefix(t.text(st), "log.") {
+			failShape("readConfigFileOnly: statement before the Open call is not a log call: %s", t.text(st))
+		}
+	}
+	ifs, ok := fd.Body.List[openIdx+1].(*ast.IfStmt)
+	if !ok || ifs.Init != nil || ifs.Else != nil || t.text(ifs.Cond) != "err != nil" {
+		failShape("readConfigFileOnly: the Open call is not followed by `if err != nil { ... }`: %s", t.text(fd.Body.List[openIdx+1]))
+	}
+	action := func(ret string) string {
+		switch ret {
+		case "return nil":
+			return "OpenSkip"
+		case "return err":
+			return "OpenAbort"
+		}
+		failShape("readConfigFileOnly: unknown return in the Open error handling: %s", ret)
+		return ""
+	}
+	for _, st := range ifs.Body.List {
+		txt := t.text(st)
+		switch x := st.(type) {
+		case *ast.IfStmt:
+			if x.Init != nil || x.Else != nil || t.text(x.Cond) != "os.IsNotExist(err)" || len(x.Body.List) != 1 {
+				failShape("readConfigFileOnly: unknown condition in the Open error handling: %s", txt)
+			}
+			if notExist != "" {
+				failShape("readConfigFileOnly: os.IsNotExist tested twice")
+			}
+			notExist = action(t.text(x.Body.List[0]))
+		case *ast.ExprStmt:
+			if !strings.HasPrefix(txt, "log.") {
+				failShape("readConfigFileOnly: unknown statement in the Open error handling: %s", txt)
+			}
+		case *ast.ReturnStmt:
+			if other != "" {
+				failShape("readConfigFileOnly: statement after a return in the Open error handling")
+			}
+			other = action(txt)
+		default:
+			failShape("readConfigFileOnly: unknown statement in the Open error handling: %s", txt)
+		}
+	}
+	if other == "" {
+		failShape("readConfigFileOnly: the Open error handling does not end in a return")
+	}
+	if notExist == "" {
+		notExist = other
+	}
+	return notExist, other
+}
+
+// readFileSteps translates the statements of readConfigFile (what happens around one file of the read loop).
+func (t *cfgTrans) readFileSteps() []string {
+	fd := findFunc(t.file, "", "readConfigFile")
+	if len(fd.Type.Params.List) != 4 {
+		failShape("readConfigFile: expected 4 parameters")
+	}
+	fsName := fd.Type.Params.List[0].Names[0].Name
+	cfg := fd.Type.Params.List[1].Names[0].Name
+	fileName := fd.Type.Params.List[2].Names[0].Name
+	sub := fd.Type.Params.List[3].Names[0].Name
+	saved := ""
+	out := []string{}
+	for i, st := range fd.Body.List {
+		txt := t.text(st)
+		if m := regexp.MustCompile(`^(` + identRe + `) := ` + regexp.QuoteMeta(cfg) + `\.Plugin$`).FindStringSubmatch(txt); m != nil && saved == "" {
+			saved = m[1]
+			out = append(out, "RSavePlugins")
+			continue
+		}
+		switch txt {
+		case cfg + ".Plugin = map[string]*Plugin{}":
+			out = append(out, "RFreshPlugins")
+		case "if err := readConfigFileOnly(" + fsName + ", " + cfg + ", " + fileName + ", " + sub + "); err != nil { return err }":
+			out = append(out, "RReadOrAbort")
+		case "if " + sub + " { checkPluginVersionRequirements(" + cfg + ") }":
+			// subrepo == false on the paths of this property
+		case "normaliseAndMergePluginConfig(" + cfg + ", " + saved + ")":
+			out = append(out, "RMergePlugins")
+		case "return nil":
+			if i != len(fd.Body.List)-1 {
+				failShape("readConfigFile: return before the end")
+			}
+		default:
+			failShape("readConfigFile: statement of unknown shape: %s", txt)
+		}
+	}
+	return out
+}
+
+// pluginMergeSteps translates the top-level passes of normaliseAndMergePluginConfig, in source order.
+func (t *cfgTrans) pluginMergeSteps() []string {
+	fd := findFunc(t.file, "", "normaliseAndMergePluginConfig")
+	if len(fd.Type.Params.List) != 2 {
+		failShape("normaliseAndMergePluginConfig: expected 2 parameters")
+	}
+	cfg := fd.Type.Params.List[0].Names[0].Name
+	old := fd.Type.Params.List[1].Names[0].Name
+	lowerPass := "for _, plugin := range " + cfg + ".Plugin { newExtraValues := make(map[string][]string, len(plugin.ExtraValues)) " +
+		"for k, v := range plugin.ExtraValues { newExtraValues[strings.ToLower(k)] = v } plugin.ExtraValues = newExtraValues }"
+	mergePass := "for pluginName, plugin := range " + old + " { pluginName = strings.ToLower(pluginName) newPlugin, ok := " + cfg + ".Plugin[pluginName] " +
+		"if !ok { " + cfg + ".Plugin[pluginName] = plugin continue } " +
+		"if newPlugin.Target.IsEmpty() { newPlugin.Target = plugin.Target } " +
+		"for k, v := range plugin.ExtraValues { if _, ok := newPlugin.ExtraValues[k]; !ok { newPlugin.ExtraValues[k] = v } } }"
+	out := []string{}
+	for _, st := range fd.Body.List {
+		switch t.text(st) {
+		case lowerPass:
+			out = append(out, "PLowerKeys")
+		case mergePass:
+			out = append(out, "PMergeOld")
+		default:
+			failShape("normaliseAndMergePluginConfig: pass of unknown shape: %s", t.text(st))
+		}
+	}
+	if len(out) == 0 {
+		failShape("normaliseAndMergePluginConfig: empty body")
+	}
+	return out
+}
+
 var reDerive = regexp.MustCompile(`^if config\.(\w+)\.(\w+) != "" \{ config\.(\w+)\.(\w+) = filepath\.Join\(config\.(\w+)\.(\w+), ("[^"]*"(?:, "[^"]*")*)\) \}$`)
 
 // fieldName turns config.A.B (or &config.A.B) into "a.b"
@@ -430,9 +600,11 @@ func init() {
 				}
 			}
 		}
-		global, repo := t.globalOrder(), t.repoOrder()
+		global, dedupe := t.globalOrder()
+		repo := t.repoOrder()
 		reads, late, lateBazel, derived, computed, appended := t.readConfigFiles()
 		sep := ";\n   "
+		notExist, otherErr := t.openPolicy()
 		return genHeader +
 			"(* one entry per element of the search order.  SrcEnvDirs var sep name: every absolute element of $var split at sep, joined with name;\n" +
 			"   SrcEnvDir var name: $var if set and absolute, joined with name; SrcHome: ~ expanded; SrcRepo: under the repository root;\n" +
@@ -440,6 +612,10 @@ func init() {
 			"Inductive cfg_src := SrcAbs (path : string) | SrcEnvDirs (var sep name : string) | SrcHome (path : string)\n" +
 			"  | SrcEnvDir (var name : string) | SrcRepo (name : string).\n" +
 			"Definition global_order : list cfg_src :=\n  [" + strings.Join(global, sep) + "].\n" +
+			"(* how defaultGlobalConfigFiles returns the list built from global_order: DedupeNone = as built; DedupeKeepLast = every name once,\n" +
+			"   at its last (highest-priority) position: element i is kept iff it does not occur again after position i *)\n" +
+			"Inductive dedupe_mode := DedupeNone | DedupeKeepLast.\n" +
+			"Definition global_dedupe : dedupe_mode := " + dedupe + ".\n" +
 			"Definition repo_order : list cfg_src :=\n  [" + strings.Join(repo, sep) + "].\n" +
 			"(* what ReadConfigFiles reads for one file name, in order; ReadProfiles sep = for every profile, in order, name ++ sep ++ profile *)\n" +
 			"Inductive cfg_read := ReadFile | ReadProfiles (sep : string).\n" +
@@ -456,7 +632,20 @@ func init() {
 			"(* if !config.<cond> { config.<dst> = append(config.<dst>, elem) } after the read loop: (cond, dst, elem) *)\n" +
 			"Definition appended_options : list (string * string * string) := [" + strings.Join(appended, "; ") + "].\n" +
 			"(* DefaultConfiguration(): None = right-hand side is not a literal *)\n" +
-			"Definition init_defaults : list (string * option (list string)) :=\n  [" + strings.Join(initDefaults(t), sep) + "].\n"
+			"Definition init_defaults : list (string * option (list string)) :=\n  [" + strings.Join(initDefaults(t), sep) + "].\n" +
+			"(* readConfigFileOnly, after `f, err := fs.Open(filename)`: what an error of Open leads to.\n" +
+			"   OpenSkip = return nil (the location is treated as absent), OpenAbort = return err (the whole read fails) *)\n" +
+			"Inductive open_action := OpenSkip | OpenAbort.\n" +
+			"Definition on_open_not_exist : open_action := " + notExist + ".\n" +
+			"Definition on_open_other_error : open_action := " + otherErr + ".\n" +
+			"(* readConfigFile, statement by statement: plugins := config.Plugin / config.Plugin = map[string]*Plugin{} /\n" +
+			"   if err := readConfigFileOnly(...); err != nil { return err } / normaliseAndMergePluginConfig(config, plugins) *)\n" +
+			"Inductive read_file_step := RSavePlugins | RFreshPlugins | RReadOrAbort | RMergePlugins.\n" +
+			"Definition read_file_steps : list read_file_step := [" + strings.Join(t.readFileSteps(), "; ") + "].\n" +
+			"(* normaliseAndMergePluginConfig, pass by pass in source order: PLowerKeys = every key of the plugin sections just read is\n" +
+			"   lower-cased; PMergeOld = the previous layers' values are copied in for the keys the section just read does not have *)\n" +
+			"Inductive plugin_step := PLowerKeys | PMergeOld.\n" +
+			"Definition plugin_merge_steps : list plugin_step := [" + strings.Join(t.pluginMergeSteps(), "; ") + "].\n"
 	}
 }
 
